@@ -166,17 +166,194 @@ def main():
     else:
         gen = PROFILES[prof][0]
         specs = [dict(gen(rnd), runner=prof) for _ in range(int(sys.argv[4]))]
-    index = []; nexp = 0; viol = []
+    index = []; nexp = 0; viol = []; discarded = 0
     with open(os.path.join(out, 'ops.txt'), 'w') as fi, open(os.path.join(out, 'expected.txt'), 'w') as fe:
         for spec in specs:
             sj = json.loads(json.dumps(spec))
-            inp, exp, info, v = RUNNERS[spec['runner']](spec)
+            r = RUNNERS[spec['runner']](spec)
+            if r is None:
+                discarded += 1; continue
+            inp, exp, info, v = r
             for (kind, reason) in v: viol.append(dict(spec=sj, oracle=kind, reason=reason))
             index.append(dict(start=nexp, n=len(exp), spec=sj, events=info.get('samples', 0), exc=info.get('exc'), tags=[spec.get('kind', '')],
                               info={k: v for k, v in info.items() if isinstance(v, (int, str, float, type(None)))}))
             nexp += len(exp)
             fi.write("\n".join(inp) + "\n"); fe.write("\n".join(exp) + "\n")
-    json.dump(dict(index=index, violations=viol, timeouts=0), open(os.path.join(out, 'index.json'), 'w'))
+    json.dump(dict(index=index, violations=viol, timeouts=discarded), open(os.path.join(out, 'index.json'), 'w'))
+
+
+
+
+# ---------------------------------------------------------------------------------------------------------------
+# C14 Percolate, C18 ShuffleK
+import epydemic.percolate as percmod
+import epydemic.shuffle as shufmod
+from epydemic import Percolate, ShuffleK, StochasticDynamics, Process, ProcessSequence, DrawSet
+
+
+def rand_graph(rnd, nmin=2, nmax=9, dens=None):
+    n = rnd.randint(nmin, nmax)
+    q = dens if dens is not None else rnd.choice([0.2, 0.4, 0.6, 0.9])
+    edges = [[a, b] for a in range(n) for b in range(a + 1, n) if rnd.random() < q]
+    rnd.shuffle(edges)
+    return n, edges
+
+
+def gen_perc(rnd):
+    n, edges = rand_graph(rnd, 1, 9)
+    M = len(edges)
+    T = rnd.choice([0.0, 1.0, 0.5, 0.25, 0.75, 0.125, rnd.random(), (rnd.randrange(M + 1) / M) if M else 0.5])
+    return dict(kind='perc', n=n, edges=edges, T=T, seed=rnd.random(), follow=rnd.random() < 0.5)
+
+
+class Probe(Process):
+    """a later component of the sequence: records the network it is built on"""
+    def build(self, params):
+        super().build(params)
+        Probe.seen = sorted(tuple(sorted(e)) for e in self.network().edges())
+
+
+def run_perc14(spec):
+    rnd = random.Random(spec['seed'])
+    percmod.numpy = Shim(rnd)
+    n = spec['n']
+    g = nx.Graph(); g.add_nodes_from(range(n)); g.add_edges_from([tuple(e) for e in spec['edges']])
+    proto = g.copy(); T = spec['T']
+    st = {}
+
+    class P(Percolate):
+        def percolate(self, T_):
+            st['before'] = list(self.network().edges())
+            return super().percolate(T_)
+
+        def occupy(self, occupied):
+            st['occ'] = [tuple(e) for e in occupied]; return super().occupy(occupied)
+
+        def unoccupy(self, unoccupied):
+            st['unocc'] = [tuple(e) for e in unoccupied]; return super().unoccupy(unoccupied)
+    # capture the shuffled order: the shim shuffles the list in place, so record it there
+    order = {}
+    inner = percmod.numpy.random.shuffle
+
+    class R:
+        @staticmethod
+        def shuffle(l):
+            inner(l); order['es'] = [tuple(e) for e in l]
+    percmod.numpy.random = R
+    Probe.seen = None
+    p = P()
+    top = ProcessSequence([p, Probe()]) if spec.get('follow') else p
+    d = StochasticDynamics(top, g)
+    exp = []; viol = []; info = dict(samples=1, exc=None)
+    try:
+        d.set({Percolate.T: T}); d.setUp(d.parameters())
+        wg = d.network()
+        M = len(order.get('es', []))
+        occ = int(M * T)
+        kept = sorted(tuple(sorted(e)) for e in wg.edges())
+        canon = lambda es: sorted(tuple(sorted(e)) for e in es)
+        exp.append(f"OCC {len(st['occ'])} KEPT {canon(st['occ'])} UNOCC {canon(st['unocc'])}".replace("'", ""))
+        orig = canon(proto.edges())
+        if len(kept) != occ: viol.append(f"T={T}, M={M}: the working network keeps {len(kept)} edges, floor(T*M) = {occ}")
+        elif sorted(wg.nodes()) != sorted(proto.nodes()): viol.append("the working network lost or gained nodes")
+        elif not set(kept) <= set(orig): viol.append(f"kept edges {kept} are not all original edges")
+        elif canon(st['occ']) != kept: viol.append(f"occupy() was given {canon(st['occ'])}, the network keeps {kept}")
+        elif sorted(canon(st['occ']) + canon(st['unocc'])) != orig: viol.append(f"occupied {canon(st['occ'])} and unoccupied {canon(st['unocc'])} do not partition the edge set {orig}")
+        elif canon(g.edges()) != orig or sorted(g.nodes()) != sorted(proto.nodes()): viol.append("the prototype network was modified")
+        elif spec.get('follow') and Probe.seen != kept: viol.append(f"the next component of the sequence was built on {Probe.seen}, the percolated network is {kept}")
+    except RecursionError:
+        raise
+    except Exception as ex:
+        info['exc'] = f"{type(ex).__name__}: {ex}"; exp.append(f"EXC {type(ex).__name__}")
+        viol.append(f"build raised {type(ex).__name__}: {ex}")
+    inp = [f"PERC {bits(T)} " + ' '.join(f"{a}-{b}" for a, b in order.get('es', []))]
+    info['M'] = len(order.get('es', []))
+    return inp, exp, info, [('perc', v) for v in viol[:1]]
+
+
+def gen_shuf(rnd):
+    n, edges = rand_graph(rnd, 4, 10, dens=rnd.choice([0.3, 0.5, 0.7]))
+    f = rnd.choice([0.0, 0.1, 0.25, 0.5, 1.0, 1.5, rnd.random()])
+    return dict(kind='shuf', n=n, edges=edges, f=f, seed=rnd.random())
+
+
+def run_shuf(spec):
+    import signal
+    rnd = random.Random(spec['seed'])
+    shufmod.numpy = Shim(rnd)
+
+    class SRng:
+        def integers(self, low, high=None):
+            if high is None: low, high = 0, low
+            return rnd.randrange(low, high)
+    import epydemic.bbt as bbt
+    bbt.rng = SRng()
+    n = spec['n']
+    g = nx.Graph(); g.add_nodes_from(range(n)); g.add_edges_from([tuple(e) for e in spec['edges']])
+    proto = g.copy(); f = spec['f']
+    swaps = []
+
+    class G2(nx.Graph):
+        pass
+    d = StochasticDynamics(ShuffleK(), g)
+    exp = []; viol = []; info = dict(samples=1, exc=None)
+
+    def alarm(sig, frm):
+        raise TimeoutError()
+    signal.signal(signal.SIGALRM, alarm); signal.alarm(2)
+    try:
+        orig_generate = d.networkGenerator().generate
+
+        def gen():
+            wg = orig_generate()
+            rm, ad = wg.remove_edges_from, wg.add_edges_from
+
+            def remove_edges_from(es):
+                es = list(es); st_['rm'] = es; return rm(es)
+
+            def add_edges_from(es, **kw):
+                es = list(es)
+                if 'rm' in st_ and len(st_['rm']) == 2 and len(es) == 2:
+                    (a, b), (c, dd) = st_.pop('rm'); swaps.append((a, b, c, dd))
+                return ad(es, **kw)
+            wg.remove_edges_from = remove_edges_from; wg.add_edges_from = add_edges_from
+            return wg
+        st_ = {}
+        d.networkGenerator().generate = gen
+        d.set({ShuffleK.REWIRE_FRACTION: f}); d.setUp(d.parameters())
+        signal.alarm(0)
+        wg = d.network()
+        M = proto.number_of_edges(); imax = int(M * f)
+        degs = [wg.degree(v) for v in range(n)]
+        es = sorted(tuple(sorted(e)) for e in wg.edges())
+        exp.append(f"FINAL guards=ok deg={degs} edges={es} nswaps={len(swaps)} imax={imax}".replace("'", ""))
+        orig = sorted(tuple(sorted(e)) for e in proto.edges())
+        if sorted(wg.nodes()) != sorted(proto.nodes()): viol.append("the working network lost or gained nodes")
+        elif wg.number_of_edges() != M: viol.append(f"the working network has {wg.number_of_edges()} edges, the original {M}")
+        elif degs != [proto.degree(v) for v in range(n)]:
+            v = next(v for v in range(n) if degs[v] != proto.degree(v))
+            viol.append(f"f={f}: node {v} had degree {proto.degree(v)}, now {degs[v]}")
+        elif any(a == b for (a, b) in wg.edges()): viol.append(f"f={f}: self-loop {[e for e in wg.edges() if e[0] == e[1]][0]} introduced")
+        elif len(set(orig) - set(es)) > 2 * imax: viol.append(f"f={f}, M={M}: {len(set(orig) - set(es))} original edges are gone, at most 2*floor(f*M) = {2 * imax} allowed")
+        elif imax == 0 and es != orig: viol.append(f"f={f} (floor(f*M) = 0) but the network changed: {sorted(set(orig) ^ set(es))}")
+        elif sorted(tuple(sorted(e)) for e in g.edges()) != orig: viol.append("the prototype network was modified")
+    except TimeoutError:
+        return None
+    except RecursionError:
+        raise
+    except Exception as ex:
+        signal.alarm(0)
+        info['exc'] = f"{type(ex).__name__}: {ex}"; exp.append(f"EXC {type(ex).__name__}")
+        viol.append(f"build raised {type(ex).__name__}: {ex}")
+    finally:
+        signal.alarm(0)
+    inp = [f"SHUF {n} {bits(f)} " + ' '.join(f"{a}-{b}" for a, b in proto.edges()) + " | " + ' '.join(f"{a},{b},{c},{dd}" for (a, b, c, dd) in swaps)]
+    info['M'] = proto.number_of_edges(); info['samples'] = len(swaps)
+    return inp, exp, info, [('shuf', v) for v in viol[:1]]
+
+
+PROFILES.update(perc=(gen_perc, run_perc14), shuf=(gen_shuf, run_shuf))
+RUNNERS.update(perc=run_perc14, shuf=run_shuf)
 
 
 if __name__ == '__main__':
